@@ -517,7 +517,9 @@ func c02Inputs(p *Prog, r *Report, rule string) {
 		if e.Kind != "assign" || e.Root != "GlobalVarsMain.C1" || len(e.Idx) != 1 || !e.Idx[0].IsZero() || len(e.Loops) == 0 {
 			continue
 		}
-		irr := e.HasGuard(func(c *Cond) bool { return c.Kind == "cmp" && c.Op == token.EQL && c.P.MentionsRoot("GlobalVarsMain.ZTBR") })
+		irr := e.HasGuard(func(c *Cond) bool {
+			return c.Kind == "cmp" && c.Op == token.EQL && c.P.MentionsRoot("GlobalVarsMain.ZTBR")
+		})
 		d := stripVersions(e.Val.Sub(e.Old))
 		switch {
 		case irr:
